@@ -164,6 +164,21 @@ def history_case(args) -> dict:
             fresh_one = sorted(tok(v) for v in Linter(project_root=proj).lint(tool))
             out["shebang"].append({"first": first, "used": used, "fresh": fresh_one})
         tool.unlink()
+        # suppression comments of the cross-file rules come and go with the text: a duplicated block under `# dry: ignore-block`,
+        # the comment removed, then put back (a directory without any module-level constant, linted on its own)
+        probe = proj / "probe_dir"
+        probe.mkdir()
+        blk = ["    total = compute_total(items)", "    average = total / max(len(items), 1)", "    report = build_report(total, average)", "    publish(report, channel)",
+               "    archive(report, storage)", "    notify_owner(report)"]
+        (probe / "p2.py").write_text("def second(items, channel, storage):\n" + "\n".join(blk) + "\n    return None\n")
+        out["dryprobe"] = []
+        for label, directive in (("suppressed", ["    # dry: ignore-block"]), ("comment removed", []), ("suppressed again", ["    # dry: ignore-next"]), ("removed again", [])):
+            (probe / "p1.py").write_text("def first(items, channel, storage):\n" + "\n".join(directive + blk) + "\n    return None\n")
+            used = sorted(tok(v) for v in linter.lint(probe))
+            core._reset_singletons()
+            fresh_one = sorted(tok(v) for v in Linter(project_root=proj).lint(probe))
+            out["dryprobe"].append({"label": label, "used": used, "fresh": fresh_one})
+        shutil.rmtree(probe)
     except Exception as exc:  # noqa: BLE001
         import traceback
         out["errors"].append(f"{type(exc).__name__}: {exc} {traceback.format_exc()[-500:]}")
@@ -344,6 +359,14 @@ def run(tier: str, seed: int, st: core.ProofStatus) -> core.Result:
                 res.disagreements.append(core.Disagreement(case={"kind": "extension-less script rewritten", "first_line": sb["first"], "history": [x["first"] for x in h["shebang"]]},
                                                            impl=sb["used"][:6], model=None, spec=sb["fresh"][:6], property_fails=True,
                                                            note=f"a script without extension whose first line is now {sb['first']!r}: the used object reports {len(sb['used'])} findings, a fresh one {len(sb['fresh'])}"))
+                break
+        for dp in h.get("dryprobe", []):
+            res.evaluations += 1
+            res.bump("dry directive probe", dp["label"])
+            if dp["used"] != dp["fresh"]:
+                res.disagreements.append(core.Disagreement(case={"kind": "dry directive added / removed between calls", "state": dp["label"]}, impl=dp["used"][:6], model=None,
+                                                           spec=dp["fresh"][:6], property_fails=True,
+                                                           note=f"duplicated block, `# dry:` directive {dp['label']}: the used object reports {len(dp['used'])} findings, a fresh one {len(dp['fresh'])}"))
                 break
         if "leak" in h:
             lk = h["leak"]
